@@ -133,9 +133,32 @@ def check_row_parsing(ctx):
                            msg="the level of a '%s' column is not float(name[1:]) added to self.%s" % (d, DICT_FIELDS[d][1]))
     # aliases
     src_loop = norm(row_loop)
+
+    def offset_alias_by_value():
+        """indices[...] = position: the key is 'leadtime' exactly when the header word is 'offset', the word itself otherwise - from
+        the folded stores into `indices`, whether written as if/else or as a conditional key."""
+        try:
+            ev_ = trace.trace(prog, site, loop_mode="body_once")
+        except (symeval.Undecided, AnalysisError):
+            return False
+        ok_offset = ok_other = False
+        for e_ in ev_.events:
+            if e_["kind"] != "store" or e_.get("root") != "indices" or len(e_["indices"]) != 1 or not isinstance(e_["indices"][0], Rat):
+                continue
+            leaves = [(e_["conds"], e_["indices"][0])]
+            top = e_["indices"][0].as_atom("ifexp")
+            if top is not None and all(isinstance(z, Rat) for z in top.args):
+                leaves = [(list(e_["conds"]) + [(top.args[0], True)], top.args[1]), (list(e_["conds"]) + [(top.args[0], False)], top.args[2])]
+            for conds_, key_ in leaves:
+                is_off = [pol for c_, pol in conds_ if isinstance(c_, Rat) and "str:'offset'" in c_.key() and c_.as_atom() is not None and c_.as_atom().func == "cmp_eq"]
+                if is_off and is_off[-1] and symeval._strval(key_) == "leadtime":
+                    ok_offset = True
+                if is_off and not is_off[-1] and symeval._strval(key_) is None:
+                    ok_other = True
+        return ok_offset and ok_other
     alias_checks = [
         ("offset is an alias of leadtime", any(isinstance(n_, ast.If) and norm(n_.test) == "att == 'offset'" and [norm(b) for b in n_.body] == ["indices['leadtime'] = i"]
-                                              for n_ in ast.walk(row_loop))),
+                                              for n_ in ast.walk(row_loop)) or offset_alias_by_value()),
         ("'location' is preferred over 'id'", _before(src_loop, "'location' in indices", "'id' in indices")),
         ("'altitude' is preferred over 'elev'", _before(src_loop, "'altitude' in indices", "'elev' in indices")),
         ("'date' (+hour*3600) is preferred over 'unixtime'", _before(src_loop, "'date' in indices", "'unixtime' in indices") and "* 3600" in src_loop and "'hour' in indices" in src_loop),
